@@ -39,4 +39,10 @@ Row2(s, n) == <<n[1], n[2], s[1] * n[2] - s[2] * n[1]>>
 Row3(s, n) == <<n[1], n[2], n[3], s[2] * n[3] - s[3] * n[2], s[3] * n[1] - s[1] * n[3], s[1] * n[2] - s[2] * n[1]>>
 SmallMotion2(x) == << <<1, -x[3], x[1]>>, <<x[3], 1, x[2]>>, <<0, 0, 1>> >>
 SmallMotion3(x) == << <<1, -x[6], x[5], x[1]>>, <<x[6], 1, -x[4], x[2]>>, <<-x[5], x[4], 1, x[3]>>, <<0, 0, 0, 1>> >>
+(* ---- generic (real-valued) instances: residuals measured by the harness in units of 1e-12, relative to the size of the data:     *)
+(* noise-free correspondences of a random rigid motion (any axis, angle up to pi) must be recovered; noisy correspondences must    *)
+(* give the same matrix as an independent Kabsch solution; the result is a proper rotation; consistent point-to-plane instances   *)
+(* with random unit normals must return their parameter vector.  Bound: 1e-8 (double) / 2e-3 (float).                             *)
+GenericBound(isFloat) == IF isFloat THEN 2000000000 ELSE 10000
+GenericOK(res, isFloat) == \A i \in 1..Len(res) : res[i] <= GenericBound(isFloat)
 =============================================================================
